@@ -29,7 +29,7 @@ def damage_options(size, P):
 
 def pick_tree(rng, P, allow_single=True):
     A = alphabet(P)
-    shapes = ["D2", "D3", "D4", "D1", "D2n", "DN", "DNf", "DU", "D5", "DNFC", "DS", "DM"] + (["S1"] if allow_single else [])
+    shapes = ["D2", "D3", "D4", "D1", "D2n", "DN", "DNf", "DU", "D5", "DNFC", "DS", "DM", "DX"] + (["S1"] if allow_single else [])
     while True:
         sh = rng.choice(shapes)
         k = 1 if sh == "S1" else len(SHAPES[sh])
@@ -132,7 +132,7 @@ class RecheckProp(Prop):
             sh, sizes = pick_tree(rng, P, allow_single and src not in ("ref_unsorted", "ref_bep47", "ref_trailing"))
         else:
             sh, sizes = tree
-        t = mk_tree(sh, sizes)
+        t = mk_tree(sh, sizes, nv=rng.randrange(6) if rng.random() < 0.3 else 0)
         damage = []
         nfiles = len(t["files"])
         for _ in range(dmg_n):
@@ -164,7 +164,8 @@ class RecheckProp(Prop):
                 m = copy.deepcopy(r)
                 m["ppm"] = m["ppm2"] = 99999999
                 out.append((m, "C05.hundred"))
-            if self.pid == "C04" and any((not d["present"] and k == "f") or d["flips"] for d, k in zip(r["disk"], r["kinds"])):
+            if self.pid == "C04" and any((not d["present"] and k == "f" and n > 0) or d["flips"]
+                                       for d, k, n in zip(r["disk"], r["kinds"], r["recs"])):
                 m = copy.deepcopy(r)
                 m["ppm"] = m["ppm2"] = 100000000
                 out.append((m, "C04.lt100"))
